@@ -129,4 +129,15 @@ CHECKS = {
               "of the harness (only javac is installed and validated); known findings listed for message-only filter "
               "patterns and three regex corner cases; one output shape with unvalidated grammar is not judged"),
         design='DESIGN.md section 4 (C14)'),
+    'C09': dict(
+        level='exploration',
+        technique='bounded stand-in only: the contract of find_subtypes / find_irrelevant_type (every returned type usable, a subtype of / unrelated to the query in an independent declarative relation, self included iff asked, nothing for top) evaluated on the real functions over synthetic class tables with every random choice enumerated, and on the queries a generator + TypeOverwriting run issues',
+        text=("NOT proved: the searches are randomised recursive procedures over the class table whose soundness needs the "
+              "declarative subtype relation with variance and bounds as an inductive specification; the part of it that is under "
+              "contract (C06) does not cover _construct_related_types. The bounded check enumerates, for a family of class tables "
+              "(plain, generic, variance, nested, bounds, dependent bounds) x every query type x every flag combination, ALL "
+              "random-choice paths of the real search, and judges every returned type with a reference relation written from the "
+              "property text. 6 failing input classes were repaired in /repo (two fix commits), 9 remain as known findings."),
+        note="bounded: stated class-table family; random choices enumerated exhaustively per query up to a path budget; 9 known findings (generic classes re-instantiated by the irrelevant-type search, open queries, dependent bounds)",
+        design='DESIGN.md section 4 (C09)'),
 }
